@@ -1040,6 +1040,9 @@ class ModuleVistor(NodeVisitor):
         if node.returns is not None:
             attr.annotation = unstring_annotation(node.returns, attr)
         attr.decorators = node.decorator_list
+        # A property is not the target of an assignment: a string that follows 
+        # its definition is not its docstring.
+        self.builder.currentAttr = None
 
         return attr
 
